@@ -413,6 +413,8 @@ pub struct SpillStats {
     /// Writes/reads by spills created first within a braid call (the braid result's).
     pub braid_writes: std::cell::Cell<u64>,
     pub braid_reads: std::cell::Cell<u64>,
+    /// Spill instances that exceeded SPILL_WRITE_LIMIT writes (runaway loop).
+    pub runaway: std::cell::Cell<u64>,
 }
 
 /// In-memory spill that counts what the braid / convergence map actually spilled.
@@ -421,19 +423,29 @@ pub struct CountingSpill {
     stats: Rc<SpillStats>,
     /// `braid()` creates exactly two spills per call: the result buffer first, the convergence map second.
     is_conv: bool,
+    own_writes: u64,
 }
+
+pub const SPILL_WRITE_LIMIT: u64 = 20_000;
 
 impl CountingSpill {
     pub fn new(stats: Rc<SpillStats>) -> Result<Self, StorageError> {
         let n = stats.created.get();
         stats.created.set(n + 1);
-        Ok(Self { inner: MemSpill::new()?, stats, is_conv: n % 2 == 1 })
+        Ok(Self { inner: MemSpill::new()?, stats, is_conv: n % 2 == 1, own_writes: 0 })
     }
 }
 
 impl Spill for CountingSpill {
     fn write_at(&mut self, offset: usize, data: &[u8]) -> Result<(), StorageError> {
         self.stats.writes.set(self.stats.writes.get() + 1);
+        self.own_writes += 1;
+        if self.own_writes > SPILL_WRITE_LIMIT {
+            // Logical watchdog: one braid never legitimately needs this many block writes
+            // (the largest case has < 10^4 commands). Break the loop instead of exhausting memory.
+            self.stats.runaway.set(self.stats.runaway.get() + 1);
+            return Err(StorageError::IoError);
+        }
         let c = if self.is_conv { &self.stats.conv_writes } else { &self.stats.braid_writes };
         c.set(c.get() + 1);
         self.stats.bytes_written.set(self.stats.bytes_written.get() + data.len() as u64);
